@@ -33,7 +33,7 @@ theorem parseTag_forward {F : Bytes} (tb : Tables) (r r1 : R) (t : Tag) (hc : Co
     (h : parseTag tb r t = .ok r1) :
     Coh F r1 ∧ Exact F r1 ∧ r1.po ≤ t.off + t.size ∧ r1.tags = r.tags ∧ r1.pos = r.pos ∧
     r1.exifLength = r.exifLength ∧ readLimit r1 = readLimit r := by
-  rcases OneO.parseTag tb r t r1 h with hs | hs
+  rcases OneO.parseTag tb r t r1 h with hs | ⟨hs, _⟩
   · refine ⟨⟨by rw [hs.rest, hs.po]; exact hc.rest, by rw [hs.po]; exact hc.le, hc.small⟩, ?_, by rw [hs.po]; omega,
       hs.tags, hs.pos, hs.exl, by unfold readLimit; rw [hs.buffered]⟩
     intro e hm; rw [hs.reads] at hm; exact he e hm
@@ -47,6 +47,12 @@ theorem parseTag_forward {F : Bytes} (tb : Tables) (r r1 : R) (t : Tag) (hc : Co
     rcases List.mem_append.mp hm with hm | hm
     · exact he e hm
     · simp only [List.mem_singleton] at hm; rw [hm]
+
+/-- a tag that gives no parser a reason to read (embedded, neither ASCII nor rational) leaves the stream alone -/
+theorem parseTag_quiet (tb : Tables) (r r1 : R) (t : Tag) (hq : ¬ Reads t) (h : parseTag tb r t = .ok r1) : Same r r1 := by
+  rcases OneO.parseTag tb r t r1 h with hs | ⟨_, hr⟩
+  · exact hs
+  · exact absurd hr hq
 
 /-- **Forward layouts are read exactly.**  From any coherent reader whose pending tags (from the current position on)
 form a forward chain of value tags, the work loop ends with a coherent reader whose read record is exact: no read failed,
